@@ -866,6 +866,16 @@ class Spec(object):
 
     def compare(self, op, left, rv):
         t = type(op)
+        if self.ranges and t in (ast.Is, ast.IsNot) and isinstance(left, (Sym, Lin, int)) and isinstance(rv, (Sym, Lin, int)) and not isinstance(left, bool) \
+                and not isinstance(rv, bool) and (is_sym(left) or is_sym(rv)) and self.interval(left) is not None and self.interval(rv) is not None:
+            # identity of two integer values whose ranges are declared: the same value or not (what `x is not y` on line numbers means)
+            known = self.decide_by_range(ast.Eq if t is ast.Is else ast.NotEq, left, rv)
+            if known is not None:
+                return known
+        if self.ranges and t in (ast.Is, ast.IsNot):
+            for x_, y_ in ((left, rv), (rv, left)):
+                if isinstance(x_, (Sym, Lin)) and self.interval(x_) is not None and (y_ is None or isinstance(y_, (bool, str, bytes, tuple))):
+                    return t is ast.IsNot  # a line number is never the object None / False / a string
         if self.ranges and t in (ast.Gt, ast.GtE, ast.Lt, ast.LtE, ast.Eq, ast.NotEq) and (is_sym(left) or is_sym(rv)) \
                 and isinstance(left, (int, Sym, Lin, Op)) and isinstance(rv, (int, Sym, Lin, Op)) and not isinstance(left, bool) and not isinstance(rv, bool):
             known = self.decide_by_range(t, left, rv)
